@@ -15,13 +15,13 @@ import (
 
 func txnRules() []*Rule {
 	return []*Rule{
-		{ID: "RD-TABLE", Props: []string{"C07", "C08", "C09", "C15"}, Min: 20,
+		{ID: "RD-TABLE", Props: []string{"C07", "C08", "C09", "C15", "C19"}, Min: 20,
 			Doc: "decision table of Database.resolveDirty extracted by path enumeration: journal gate before the header read (hot journal ⇒ error unless RESERVED is held), header re-read and re-validated before dirty is cleared, header replaced by the fresh one, no nil return that leaves the handle unvalidated",
 			Run: runResolveDirty},
-		{ID: "TXN-3", Props: []string{"C08"}, Min: 4,
+		{ID: "TXN-3", Props: []string{"C08", "C19"}, Min: 4,
 			Doc: "page cache cleared unless the change counter is unchanged; schema cache reset unless the schema cookie is unchanged; comparisons use the old header",
 			Run: runTxn3},
-		{ID: "TXN-1", Props: []string{"C08", "C15"}, Min: 12,
+		{ID: "TXN-1", Props: []string{"C08", "C15", "C01", "C04"}, Min: 12,
 			Doc: "every exported function of package db that reaches a page read calls resolveDirty (revalidation) before any page read or cache lookup",
 			Run: runTxn1},
 		{ID: "CACHE", Props: []string{"C08"}, Min: 2,
@@ -30,10 +30,10 @@ func txnRules() []*Rule {
 		{ID: "TXN-5", Props: []string{"C08"}, Min: 1,
 			Doc: "the file mapping must follow the file: a mapping created at open is never refreshed by RLock/resolveDirty",
 			Run: runTxn5},
-		{ID: "JRNL-2", Props: []string{"C09"}, Min: 3,
+		{ID: "JRNL-2", Props: []string{"C09", "C07"}, Min: 3,
 			Doc: "the journal consulted is <database file>-journal, as SQLite names it",
 			Run: runJrnl2},
-		{ID: "JRNL-3", Props: []string{"C09"}, Min: 12,
+		{ID: "JRNL-3", Props: []string{"C09", "C07"}, Min: 12,
 			Doc: "hot-journal recognition: magic equal to SQLite's, sector size in [512,65536], header and first sector fully present; anything else (absent, empty, zeroed, truncated) is `no journal`, only a non-ENOENT open failure is an error",
 			Run: runJrnl3},
 		{ID: "HDR", Props: []string{"C15"}, Min: 14,
